@@ -99,6 +99,24 @@ func TestVerifWire(t *testing.T) {
 		id++
 		wiEmit(id, "summary", "direct", r, messageSummaries(r))
 	}
+	// messages are values: one that has been built must not change when further ones are built (a publisher holds a
+	// message while others are encoded).  Build batches with both builders interleaved, look at them afterwards.
+	for b := 0; b+8 <= len(recs) && b < 160; b += 8 {
+		type held struct {
+			kind  string
+			r     *DataRecord
+			parts [][]byte
+		}
+		var hs []held
+		for k := 0; k < 8; k++ {
+			r := recs[b+k]
+			hs = append(hs, held{"record", r, messageRecords(r)}, held{"summary", r, messageSummaries(r)})
+		}
+		for _, h := range hs {
+			id++
+			wiEmit(id, h.kind, "held", h.r, h.parts)
+		}
+	}
 	// the same builders behind a real PUB socket, received on a SUB socket
 	for _, kind := range []string{"record", "summary"} {
 		port := 40000 + rng.Intn(10000)
